@@ -236,6 +236,91 @@ def reserved_mask(spec, name, i):
     return m
 
 
+class NotEvaluable(Exception):
+    pass
+
+
+def eval_atom(a, env):
+    """value of an interpreter atom under a concrete assignment of input bytes (static evaluation of the symbolic
+    expression, no program is run)"""
+    from .lin import lin_from_key
+    if a in env:
+        return env[a]
+    if not isinstance(a, tuple) or not a:
+        raise NotEvaluable()
+    k = a[0]
+    if k == "and" and len(a) == 3 and isinstance(a[2], int):
+        return eval_lin(lin_from_key(a[1]), env) & a[2]
+    if k == "shr" and len(a) == 3 and isinstance(a[2], int):
+        return eval_lin(lin_from_key(a[1]), env) >> a[2]
+    if k == "shl" and len(a) == 4:
+        return (eval_lin(lin_from_key(a[1]), env) << a[2]) & ((1 << a[3]) - 1)
+    if k == "or" and len(a) == 3:
+        return eval_lin(lin_from_key(a[1]), env) | eval_lin(lin_from_key(a[2]), env)
+    if k == "b2if" and len(a) == 3:
+        v = eval_lin(lin_from_key(a[2]), env)
+        return int({"ge": v >= 0, "eq": v == 0, "ne": v != 0}[a[1]])
+    raise NotEvaluable()
+
+
+def eval_lin(l, env):
+    r = l.c
+    for a, c in l.t.items():
+        r += c * eval_atom(a, env)
+    return r
+
+
+def invented_bits(st, x, y_atom):
+    """re-encoded byte x (a Lin) against the input byte atom: a value of the input byte, admitted by every fact of the
+    path that can be evaluated, for which x has a bit set that the input byte has clear (None: no such value / not
+    decidable).  Normalising may clear reserved bits; it must not turn them into set flags."""
+    rel = []
+    for f in st.facts:
+        if y_atom in _atoms_deep(f):
+            rel.append(("ge", f))
+    for n in st.neqs:
+        if y_atom in _atoms_deep(n):
+            rel.append(("ne", n))
+    if st.disj:
+        for d in st.disj:
+            for conj in d:
+                for l in conj:
+                    if y_atom in _atoms_deep(l):
+                        return None  # disjunctive knowledge about this byte: not evaluated
+    for v in range(256):
+        env = {y_atom: v}
+        try:
+            ok = True
+            for kind, l in rel:
+                val = eval_lin(l, env)
+                if (kind == "ge" and val < 0) or (kind == "ne" and val == 0):
+                    ok = False
+                    break
+            if not ok:
+                continue
+            b = eval_lin(x, env)
+        except NotEvaluable:
+            return None
+        if b & ~v & 0xff:
+            return v, b
+    return None
+
+
+def _atoms_deep(l):
+    out = set()
+
+    def walk(t):
+        if isinstance(t, tuple):
+            if t and t[0] == "byte":
+                out.add(t)
+                return
+            for z in t:
+                walk(z)
+    for a in l.t:
+        walk(a)
+    return out
+
+
 def check_rt2(S, F, T, name, enc, dec, dn, spec):
     r = {"rule": "rt2", "type": T, "what": dn, "sp": dec["span"], "problems": [], "paths": 0, "normalised": 0}
     I = S.interp()
@@ -309,8 +394,16 @@ def check_rt2(S, F, T, name, enc, dec, dn, spec):
                     r["bytes_equal"] = r.get("bytes_equal", 0) + 1
                 else:
                     # not a failure by itself: bits the decoder does not read are reserved / normalised; what must
-                    # hold is that decoding the re-encoded bytes gives the same value (checked below)
+                    # hold is that decoding the re-encoded bytes gives the same value (checked below) ...
                     r["bytes_normalised"] = r.get("bytes_normalised", 0) + 1
+                    # ... and that the normalisation only *clears* bits: a re-encoded byte with a bit set that the
+                    # input byte did not have means a field is read from the wrong / too many bits
+                    ya = b.lin.single_atom() if isinstance(b, VInt) else None
+                    if isinstance(a, VInt) and ya is not None and isinstance(ya, tuple) and ya[0] == "byte" and not rm:
+                        w = invented_bits(s3, a.lin, ya)
+                        if w is not None:
+                            r["problems"].append("re-encoding byte %d sets a bit the input did not have (input 0x%02x -> 0x%02x): "
+                                                 "a field is decoded from bits that are not its own" % (i, w[0], w[1] & 0xff))
             # decode again
             s4 = s2.fork()
             Itmp = S.interp()
